@@ -86,6 +86,9 @@ func (*Keeper).ApplyTransaction
     // with hooks installed, execution and hooks work on the branch, not on ctx
     call ApplyMessageWithConfig requires c05_onbranch: k.hooks != nil ==> ctx == branch
     call PostTxProcessing requires c05_onbranch: (k.hooks != nil ==> hctx == branch) && !vmfailed
+    // C07: whatever the outcome of the execution, the sender is refunded for exactly the gas that was not used, in the EVM denomination
+    // (then: up-front gasLimit x price - refund (gasLimit - gasUsed) x price = gasUsed x price)
+    call RefundGas requires c07_refund: leftoverGas == msg_gas(msg) - res.GasUsed && denom == cfg.Params.EvmDenom && res == ret(ApplyMessageWithConfig, 1, 0)
     ensures c05_vmfailed: result.1 == nil && vmfailed ==> cache_written == old(cache_written)
     ensures c05_hookfailed: result.1 == nil && !vmfailed && hookerr != nil ==> cache_written == old(cache_written) && len(result.0.Logs) == 0
     ensures c05_success: result.1 == nil && !vmfailed && hookerr == nil && k.hooks != nil ==> cache_written == old(cache_written) + 1
